@@ -72,6 +72,11 @@ func (o *RunOut) collect(s *Sim) {
 	for i, k := range s.BlockWakes.Keys {
 		o.Stats["wake:"+k] += s.BlockWakes.Vals[i]
 	}
+	if s.cfg.PCTDepth > 0 {
+		o.Stats["policy:pct-depth-"+string(rune('0'+s.cfg.PCTDepth))]++
+	} else if len(s.tasks) > 0 {
+		o.Stats["policy:random-walk"]++
+	}
 	if s.Ambig > 0 {
 		o.Stats["ambiguous_select"] += int64(s.Ambig)
 		if o.Discard == "" {
